@@ -53,6 +53,8 @@ type FuncContract struct {
 	Notes    []string
 	File     string
 	Terminates bool // every loop must carry a decreases clause
+	Decreases  CExpr // measure for (self-)recursive calls
+	DecSrc     string
 }
 
 type LemmaStep struct {
@@ -71,6 +73,8 @@ type Lemma struct {
 	Pkg      string
 }
 
+type OpaqueDecl struct{ GoType, Sort string }
+
 type ContractSet struct {
 	Specs    map[string]*SpecFunc
 	SpecOrd  []string
@@ -78,6 +82,7 @@ type ContractSet struct {
 	Lemmas   map[string]*Lemma
 	LemmaOrd []string
 	Axioms   []Clause // global axioms (assumptions)
+	Opaque   []OpaqueDecl
 	Files    []string
 }
 
@@ -85,7 +90,7 @@ func NewContractSet() *ContractSet {
 	return &ContractSet{Specs: map[string]*SpecFunc{}, Funcs: map[string]*FuncContract{}, Lemmas: map[string]*Lemma{}}
 }
 
-var kwRe = regexp.MustCompile(`^(pure|func|lemma|requires|ensures-bounded|ensures|loop|invariant|decreases|axiom|def|use|assert|table|literal|note|terminates)\b`)
+var kwRe = regexp.MustCompile(`^(pure|func|lemma|requires|ensures-bounded|ensures|opaque|loop|invariant|decreases|axiom|def|use|assert|table|literal|note|terminates)\b`)
 var labelRe = regexp.MustCompile(`^@([A-Za-z0-9_\-/.]+):\s*`)
 
 type rawLine struct {
@@ -191,6 +196,12 @@ func (cs *ContractSet) LoadContractFile(path, pkgPath string, trusted bool) erro
 			}
 			curSpec.Table = "literal:" + f[0]
 			curSpec.TableIn = f[2]
+		case "opaque":
+			f := strings.Fields(r.rest)
+			if len(f) != 2 {
+				return fmt.Errorf("%s:%d: opaque <pkg.Type> <Sort>", path, r.line)
+			}
+			cs.Opaque = append(cs.Opaque, OpaqueDecl{f[0], f[1]})
 		case "def":
 			if curSpec == nil {
 				return fmt.Errorf("%s:%d: def outside pure func", path, r.line)
@@ -301,6 +312,15 @@ func (cs *ContractSet) LoadContractFile(path, pkgPath string, trusted bool) erro
 			}
 			curLoop.Invariants = append(curLoop.Invariants, c)
 		case "decreases":
+			if curLoop == nil && curFunc != nil {
+				e, err := ParseCExpr(r.rest)
+				if err != nil {
+					return fmt.Errorf("%s:%d: %v", path, r.line, err)
+				}
+				curFunc.Decreases = e
+				curFunc.DecSrc = r.rest
+				continue
+			}
 			if curLoop == nil {
 				return fmt.Errorf("%s:%d: decreases outside loop", path, r.line)
 			}
